@@ -8,13 +8,14 @@ export GOFLAGS=-mod=mod GOPROXY=off GOSUMDB=off GOTOOLCHAIN=local
 if [ ! -d "$WT" ]; then git -C /repo worktree add -q --detach "$WT" HEAD || exit 2; fi
 HEADSHA=$(git -C /repo rev-parse --short HEAD)
 reset() { git -C "$WT" checkout -q --detach "$HEADSHA" && git -C "$WT" reset -q --hard && git -C "$WT" clean -fdq; }
-reset
+place() { for d in pkg cmd tests; do [ -d "$SRC/demo/$d" ] && cp -r "$SRC/demo/$d" "$WT/"; done; }
+reset; place
 bash "$SRC/demo/run.sh" "$WT" >/tmp/confirm.$$.clean 2>&1; RC_CLEAN=$?
 reset
 git -C "$WT" apply "$SRC/patch.diff" || { echo "$ID: patch does not apply on $HEADSHA"; exit 1; }
 ( cd "$WT" && go build ./... ) || { echo "$ID: does not build"; reset; exit 1; }
 "$ROOT/tools/suite.sh" "$WT" >/tmp/confirm.$$.suite 2>&1; RC_SUITE=$?
-git -C "$WT" stash -q 2>/dev/null; git -C "$WT" stash pop -q 2>/dev/null
+place
 bash "$SRC/demo/run.sh" "$WT" >/tmp/confirm.$$.mut 2>&1; RC_MUT=$?
 reset
 echo "$ID: demo on clean tree exit=$RC_CLEAN (want 0); suite with change exit=$RC_SUITE (want 0): $(head -n 1 /tmp/confirm.$$.suite); demo with change exit=$RC_MUT (want != 0)"
